@@ -13,6 +13,7 @@ With `"msg": true` init/stop/sub travel through the `QNodeController` message ha
 (binary subroutine encoding on the path).
 """
 import copy
+import json
 import re
 
 from vlib import common
@@ -61,6 +62,15 @@ class TraceExecutor(Executor):
         self.visited = []
         self.last_pc = None
         self.returned = {}  # (app, address) -> copy of the array at the moment of ret_arr
+        self.reports = []   # faults handed to a recording `_handle_command_exception` (LenientExecutor)
+        self.hook_armed = False
+
+    def _clear_phys_qubit_in_memory(self, physical_address):
+        # reset hook of the quantum processor: a yield point; fault injection: raises once when armed
+        if self.hook_armed:
+            self.hook_armed = False
+            raise RuntimeError("injected failure of the reset hook")
+        return super()._clear_phys_qubit_in_memory(physical_address)
 
     @property
     def node_id(self):
@@ -119,6 +129,18 @@ class TraceExecutor(Executor):
         app = self._app(subroutine_id)
         self.returned[(app, instr.address.address)] = list(self._app_arrays[app]._arrays[instr.address.address])
         return out
+
+
+class LenientMixin:
+    """`_handle_command_exception` is an extension point: simulators log the fault and keep the node
+    alive instead of re-raising.  This variant records (class, line) and returns."""
+
+    def _handle_command_exception(self, exc, prog_counter, traceback_str):
+        self.reports.append((type(exc).__name__, prog_counter))
+
+
+class LenientExecutor(LenientMixin, TraceExecutor):
+    pass
 
 
 class Controller(QNodeController):
@@ -262,15 +284,23 @@ class Real:
         SharedMemoryManager.reset_memories()
         set_is_using_hardware(bool(sc["hw"]))
         self.msg = bool(sc.get("msg"))
-        if self.msg:
-            self.ctrl = Controller(name=NODE, flavour=VanillaFlavour())
-            self.e = self.ctrl._executor
-        else:
-            self.ctrl = None
-            self.e = TraceExecutor(name=NODE)
-        self.reserved = set()
+        self.lenient = bool(sc.get("lenient"))
+        self.ctxs = []
+        for k in range(sc.get("nex", 1)):   # several executors in one process (nodes of one simulation)
+            name = NODE if k == 0 else "%s-%d" % (NODE, k)
+            if self.msg:
+                ctrl = Controller(name=name, flavour=VanillaFlavour())
+                e = ctrl._executor
+            else:
+                ctrl = None
+                e = (LenientExecutor if self.lenient else TraceExecutor)(name=name)
+            self.ctxs.append({"name": name, "ctrl": ctrl, "e": e, "reserved": set(), "subs": []})
+        self.select({})
         self.nmsg = 0
-        self.subs = []  # subroutines in flight (interleaving layer)
+
+    def select(self, o):
+        c = self.ctxs[o.get("ex", 0)]
+        self.name, self.ctrl, self.e, self.reserved, self.subs = c["name"], c["ctrl"], c["e"], c["reserved"], c["subs"]
 
     def close(self):
         set_is_using_hardware(False)
@@ -301,7 +331,7 @@ class Real:
 
     def dump(self):
         e = self.e
-        reg = sorted(k[1] for k, v in SharedMemoryManager._MEMORIES.items() if k[0] == NODE and v is not None)
+        reg = sorted(k[1] for k, v in SharedMemoryManager._MEMORIES.items() if k[0] == self.name and v is not None)
         return {"apps": [self.dump_app(a) for a in self.sc["apps"]],
                 "used": sorted(e._used_physical_qubit_addresses),
                 "reserved": sorted(self.reserved),
@@ -317,7 +347,18 @@ class Real:
         self.nmsg += 1
         self._consume(self.ctrl.handle_netqasm_message(self.nmsg, msg))
 
+    def _lenient_out(self, n0):
+        """outcome of a subroutine on the recording executor: the faults reported since `n0`"""
+        reps = self.e.reports[n0:]
+        if not reps:
+            return None
+        out = {"o": "fault", "cls": reps[0][0], "line": reps[0][1]}
+        if len(reps) > 1:
+            out = {"o": "fault-repeated", "n": len(reps), "cls": reps[0][0], "line": reps[0][1]}
+        return out
+
     def do(self, o):
+        self.select(o)
         e = self.e
         k = o["k"]
         if k == "init":
@@ -363,16 +404,17 @@ class Real:
             e.outcomes = list(o.get("or", []))
             e.fuel, e.steps, e.visited, e.last_pc = o["fuel"], 0, [], None
             n0 = len(e.events)
+            nrep = len(e.reports)
             sid = e._next_subroutine_id
             try:
                 if self.msg:
                     self._send(SubroutineMessage(subroutine=sub))
                 else:
                     list(e.execute_subroutine(sub))
-                out = {"o": "halted"}
+                out = self._lenient_out(nrep) or {"o": "halted"}
                 pc = e.last_pc
             except StepLimit:
-                out = {"o": "fuel"}
+                out = self._lenient_out(nrep) or {"o": "fuel"}
                 pc = e._program_counters.get(sid)
             except Exception as ex:
                 cls, line = _exc(ex)
@@ -386,7 +428,50 @@ class Real:
             return {"id": len(self.subs) - 1}
         if k == "tick":
             return self.tick(o)
+        if k == "hooktick":
+            e.hook_armed = True
+            try:
+                return self.tick(o)
+            finally:
+                e.hook_armed = False
+        if k == "abort":
+            return self.abort(o)
         raise ValueError(k)
+
+    def abort(self, o):
+        """the runtime drops a suspended subroutine: between two instructions (`mid` false) or at the
+        first yield point it reaches when resumed (`mid` true; inside `qfree` that is the reset hook)"""
+        e = self.e
+        if o["i"] >= len(self.subs):
+            return {"o": "none", "trace": []}
+        sb = self.subs[o["i"]]
+        if sb["done"]:
+            return {"o": "done", "trace": []}
+        n0 = len(e.events)
+        e.fuel, e.last_pc = None, None
+        r = {"o": "aborted"}
+        try:
+            if o.get("mid"):
+                if sb["gen"] is None:
+                    self._start(sb)
+                next(sb["gen"])            # up to the next yield point of ANY kind
+            if sb["gen"] is not None:
+                sb["gen"].close()
+        except StopIteration:
+            pass
+        except Exception as ex:
+            cls, line = _exc(ex)
+            r = {"o": "fault", "cls": cls, "line": line}
+        sb["done"] = True
+        r["trace"] = e.events[n0:]
+        return r
+
+    def _start(self, sb):
+        e = self.e
+        sub = Subroutine(instructions=[build(j) for j in sb["p"]], app_id=sb["a"])
+        sb["sid"] = e._next_subroutine_id
+        sb["gen"] = e.execute_subroutine(sub)
+        self._to_pre(sb["gen"])      # starts the subroutine, parks before instruction 0
 
     @staticmethod
     def _to_pre(gen):
@@ -406,16 +491,16 @@ class Real:
         e.fuel, e.last_pc = None, None
         n0 = len(e.events)
         try:
+            nrep = len(e.reports)
             if sb["gen"] is None:
-                sub = Subroutine(instructions=[build(j) for j in sb["p"]], app_id=sb["a"])
-                sb["sid"] = e._next_subroutine_id
-                sb["gen"] = e.execute_subroutine(sub)
-                self._to_pre(sb["gen"])      # starts the subroutine, parks before instruction 0
+                self._start(sb)
             self._to_pre(sb["gen"])          # one instruction, then parks before the next one
             r = {"o": "live", "pc": e._program_counters.get(sb["sid"])}
+            if len(e.reports) > nrep:        # recording executor: a fault was reported yet it goes on
+                r = dict(self._lenient_out(nrep), o="fault-repeated", pc=r["pc"])
         except StopIteration:
             sb["done"] = True
-            r = {"o": "halted", "pc": e.last_pc}
+            r = dict(self._lenient_out(nrep) or {"o": "halted"}, pc=e.last_pc)
         except Exception as ex:
             sb["done"] = True
             cls, line = _exc(ex)
@@ -430,6 +515,7 @@ def run_real(sc, observers=()):
     outs = []
     try:
         for idx, o in enumerate(sc["ops"]):
+            real.select(o)
             for ob in observers:
                 ob.before(real, idx, o)
             try:
@@ -483,12 +569,26 @@ def first_diff(a, b, path=""):
 def compare(sc, driver, observers=()):
     """-> (real_outs, model_outs, diff or None). diff = (op index, path, model, code)"""
     real = run_real(sc, observers)
-    ans = driver.call({"op": "exec.scenario", "hw": bool(sc["hw"]), "apps": sc["apps"],
-                       "addrs": sc["addrs"], "ops": sc["ops"][:len(real)]})
+    try:
+        ans = driver.call({"op": "exec.scenario", "hw": bool(sc["hw"]), "apps": sc["apps"], "nex": sc.get("nex", 1),
+                           "addrs": sc["addrs"], "ops": sc["ops"][:len(real)]})
+    except RuntimeError as ex:
+        if "driver died" not in str(ex):
+            raise
+        # The real run is cut (Skip guard) before any array longer than MAX_ARRAY is created, so the
+        # model is only ever asked to allocate one when the two executions have already diverged.
+        driver.close()
+        driver.__init__()
+        return real, [], (max(len(real) - 1, 0), ".model-ran-out-of-memory (array size the real run never reached)",
+                          None, None)
     if "steps" not in ans:
         raise RuntimeError("driver rejected scenario: %r" % (ans,))
     model = ans["steps"]
     for i, rs in enumerate(real):
+        if i >= len(model) or model[i].get("guard"):
+            # the model would allocate an array the real run never created (the real run is cut before
+            # any array longer than MAX_ARRAY): the two executions have already diverged
+            return real, model[:i], (i, ".model-array-guard", "array longer than the guard", "not reached")
         d = first_diff(strip_model(model[i]), rs)
         if d:
             return real, model, (i, d[0], d[1], d[2])
@@ -557,7 +657,7 @@ class InvariantObserver:
                       tables=[sorted(k) for k in keysets])
         # (4) isolation: an operation of application a leaves every other application unchanged
         a = o.get("a")
-        if o["k"] == "tick":  # the application whose subroutine was resumed
+        if o["k"] in ("tick", "hooktick", "abort"):  # the application whose subroutine was resumed / dropped
             a = real.subs[o["i"]]["a"] if o["i"] < len(real.subs) else None
         for b, before in self.snap.items():
             if o["k"] in ("reserve", "spawn") or b != a:
@@ -632,6 +732,8 @@ class Gen:
 
     def val(self):
         r = self.rng
+        if getattr(self, "small", False):
+            return r.randrange(0, 6) if r.random() < 0.6 else r.randrange(-6, 45)
         x = r.random()
         if x < 0.55:
             return r.randrange(0, 6)
@@ -855,11 +957,112 @@ def par_scenario(rng, nticks):
     return {"hw": False, "apps": list(range(napps)), "addrs": [0, 1], "ops": ops}
 
 
+def multi_scenario(rng, nticks, style="c13"):
+    """2-3 executors in ONE process (the nodes of a simulated network), each with its own
+    applications and subroutines in flight, advanced one instruction at a time in a random order
+    ACROSS executors (so executor A is suspended inside its k-th subroutine while B starts, runs or
+    finishes its own k-th)."""
+    r = rng
+    nex = r.choice([2, 2, 3])
+    g = Gen(r)
+    g.small = True   # no huge array sizes: after a divergence the model would try to allocate them
+    if style == "c13":
+        g.hot = [(2, 0), (2, 1), (0, 0), (0, 1), (0, 2)]
+        g.addrs = [0, 1]
+    qw = ["set", "set", "set", "qalloc", "qalloc", "qfree", "store", "array", "ret_reg", "ret_arr",
+          "add", "add", "meas", "q1", "load", "bnz", "jmp"]
+    ops, nsubs = [], [0] * nex
+    for ex in range(nex):
+        for a in range(r.choice([1, 1, 2])):
+            ops.append({"k": "init", "ex": ex, "a": a, "n": r.choice([1, 2, 3])})
+
+    def spawn(ex):
+        a = r.choice([0, 0, 1])
+        if style == "c04":
+            prog = g.program()
+        else:
+            prog = [["set", 0, 0, r.randrange(3)], ["set", 0, 1, 1], ["set", 2, 0, 0]]
+            for _ in range(r.choice([4, 8, 12])):
+                if r.random() < 0.4:
+                    prog.append(["set", 2, r.randrange(2), r.choice([0, 0, 1, 2, -1])])
+                prog.append(g.instr(len(prog) + 6, qw))
+            prog.append(["add", 0, 0, 0, 0, 0, 1])
+            prog.append(["ret_reg", 0, 0])
+        ops.append({"k": "spawn", "ex": ex, "a": a, "p": prog})
+        nsubs[ex] += 1
+    for ex in range(nex):
+        spawn(ex)
+    for _ in range(nticks):
+        ex = r.randrange(nex)
+        x = r.random()
+        if x < 0.93:
+            ops.append({"k": "tick", "ex": ex, "i": r.randrange(nsubs[ex])})
+        elif x < 0.97:
+            spawn(ex)
+        else:
+            ops.append({"k": "sub", "ex": ex, "a": 0, "fuel": 30, "or": [], "p": g.program()})
+    return {"hw": False, "nex": nex, "apps": [0, 1], "addrs": sorted(set(g.addrs)), "ops": ops}
+
+
+def abort_scenario(rng, nticks):
+    """crash/abort points: subroutines of 2-3 applications in flight; now and then the runtime drops
+    one (between instructions, or at the yield point inside its next instruction) or the reset
+    hook of the quantum processor raises; afterwards applications are stopped, re-registered and
+    allocate again."""
+    r = rng
+    napps = r.choice([2, 2, 3])
+    sizes = [r.choice([2, 3, 4]) for _ in range(napps)]
+    ops = [{"k": "init", "a": a, "n": sizes[a]} for a in range(napps)]
+    progs = []
+    for a in list(range(napps)) + [r.randrange(napps)]:
+        n = sizes[a]
+        alloc, prog = set(), [["set", 0, 0, 1]]
+        for _ in range(r.choice([4, 6, 10])):
+            q = [2, r.randrange(3)]
+            free = [v for v in range(n) if v not in alloc]
+            if free and (not alloc or r.random() < 0.5):
+                v = r.choice(free)
+                prog += [["set"] + q + [v], ["qalloc"] + q]
+                alloc.add(v)
+            else:
+                v = r.choice(sorted(alloc))
+                prog += [["set"] + q + [v], ["qfree"] + q]
+                alloc.discard(v)
+        ops.append({"k": "spawn", "a": a, "p": prog})
+        progs.append(prog)
+    for _ in range(nticks):
+        i = r.randrange(len(progs))
+        x = r.random()
+        if x < 0.80:
+            ops.append({"k": "tick", "i": i})
+        elif x < 0.88:
+            ops.append({"k": "abort", "i": i, "mid": True})
+        elif x < 0.92:
+            ops.append({"k": "abort", "i": i, "mid": False})
+        elif x < 0.97:
+            ops.append({"k": "hooktick", "i": i})
+        else:
+            ops.append({"k": "reserve"})
+    # afterwards: drop what is still in flight, stop everything, register again, allocate everything
+    for i in range(len(progs)):
+        if r.random() < 0.5:
+            ops.append({"k": "abort", "i": i, "mid": r.random() < 0.5})
+    for a in range(napps):
+        if r.random() < 0.8:
+            ops.append({"k": "stop", "a": a})
+            ops.append({"k": "init", "a": a, "n": sizes[a]})
+        ops.append({"k": "sub", "a": a, "fuel": 60, "or": [], "p": sum(
+            [[["set", 2, 0, v], ["qalloc", 2, 0]] for v in range(sizes[a])], [])})
+    return {"hw": False, "apps": list(range(napps)), "addrs": [0], "ops": ops}
+
+
 def fix_keeps(sc):
     """Environment hypothesis of keep-responses: the physical id delivered is one the link layer holds
     (obtained through `reserve`).  `p: None` is replaced by a currently reserved id, computed by
     running the real executor's own `_get_unused_physical_qubit` results; a keep with nothing reserved
     is preceded by a `reserve`."""
+    if not any(o["k"] == "keep" for o in sc["ops"]):
+        return sc   # nothing to resolve, no environment hypothesis to police: no dry run needed
     out = []
     for o in sc["ops"]:
         if o["k"] == "keep" and o["p"] is None:
@@ -899,7 +1102,7 @@ def fix_keeps(sc):
 def shrink(sc, still_fails, budget=400):
     """Greedy delta-debugging: drop ops, drop instructions (retargeting nothing: targets are
     unstructured anyway), simplify values.  `still_fails(sc) -> bool`."""
-    cur = copy.deepcopy(sc)
+    cur = json.loads(json.dumps(sc))   # also breaks any aliasing between ops of a hand-written scenario
     spent = [0]
 
     def ok(c):
@@ -924,7 +1127,7 @@ def shrink(sc, still_fails, budget=400):
             i -= 1
         # drop single instructions
         for oi, o in enumerate(cur["ops"]):
-            if o["k"] != "sub":
+            if o["k"] not in ("sub", "spawn"):
                 continue
             j = len(o["p"]) - 1
             while j >= 0:
@@ -950,7 +1153,7 @@ def describe(sc):
             lines.append(f"sub app={o['a']} fuel={o['fuel']} outcomes={o.get('or', [])}: " +
                          "; ".join(render(j) for j in o["p"]))
         elif o["k"] == "spawn":
-            lines.append(f"spawn app={o['a']}: " + "; ".join(render(j) for j in o["p"]))
+            lines.append(f"spawn{' ex=%d' % o['ex'] if 'ex' in o else ''} app={o['a']}: " + "; ".join(render(j) for j in o["p"]))
         else:
             lines.append(" ".join(f"{k}={v}" for k, v in o.items()))
     return lines
